@@ -440,5 +440,50 @@ def run(chk, prog):
     A.require(st, "Impedance::operator+=: no element store to the sample vector _data found (member renamed?)")
     ok = len(st) == 1 and st[0].op == "+=" and st[0].value is not None and str(st[0].value) == "rhs._data[%s]" % st[0].idx[0] and st[0].loops[0].lo == 0
     chk.check(ok, "R5", pa.where, "operator+= adds sample i of the right-hand side to sample i (%s)" % (st[0].value if st else None), "operator+=:elementwise")
+    # ---- R6: the samples of a model are a function of its arguments only (no state carried from one construction to the next) -----
+    imp_classes = {"vfps::Impedance"} | prog.subclasses("vfps::Impedance")
+    n6 = 0
+    for fq in prog.functions.values():
+        if fq.get("class") not in imp_classes or not fq.get("body"):
+            continue
+        if not (fq["name"] == "__calcImpedance" or fq.get("kind") == "ctor" or fq["name"] in ("readData", "operator+=", "operator=")):
+            continue
+        n6 += 1
+        chk.used(fq)
+        stat = []
+        for x in A.walk(fq["body"]):
+            if x.get("k") == "DeclStmt":
+                for d in x.get("decls", []):
+                    if d.get("static_local"):
+                        dep = [y for y in A.walk(d["init"]) if y.get("k") == "DeclRefExpr" and y.get("dkind") in ("ParmVar", "Var") and y.get("local")] if isinstance(d.get("init"), dict) else []
+                        if not d.get("is_const") or dep:
+                            stat.append(d["name"])
+        gl = []
+        for y, lhs, op, rhs in A.assignments_in(fq["body"]):
+            dl = A.declref(lhs)
+            if dl is not None and dl.get("dkind") == "Var" and not dl.get("local"):
+                gl.append(dl["qname"])
+        if stat and not gl:
+            # a memoised result is still a function of the arguments if it is handed out only when EVERY parameter equals the value
+            # stored with it: each parameter must be compared directly (p == s, or container.size() == p) with a static local
+            keyed = set()
+            for y in A.walk(fq["body"]):
+                if y.get("k") == "BinaryOperator" and y.get("op") == "==":
+                    for a_, b_ in ((y["c"][0], y["c"][1]), (y["c"][1], y["c"][0])):
+                        pa_, sb_ = A.declref(a_), A.strip(b_)
+                        if pa_ is not None and pa_.get("dkind") == "ParmVar":
+                            sd_ = A.declref(sb_)
+                            if sd_ is not None and sd_.get("name") in stat:
+                                keyed.add(pa_["name"])
+                            elif sb_.get("k") == "CXXMemberCallExpr" and (sb_.get("callee") or "").endswith("::size") and \
+                                    (A.declref(A.call_object(sb_)) or {}).get("name") in stat:
+                                keyed.add(pa_["name"])
+            if keyed >= {p_["name"] for p_ in fq["params"]}:
+                stat = []
+        chk.check(not stat and not gl, "R6", fq.where,
+                  "%s keeps nothing between calls: no static local that is mutable or initialised from an argument, no assignment to a global%s"
+                  % (fq["qname"].replace("vfps::", ""), "" if not (stat or gl) else " (static: %s, globals: %s)" % (stat, gl)),
+                  "%s:state-between-calls:%s" % (fq["qname"].replace("vfps::", ""), sorted(stat + gl)))
+    chk.floor("R6-model-functions", n6, 8)
     chk.notes.append("C16: sample counts and zero upper half by a symbolic model of the vector operations, passivity and side by a sign lattice over "
                      "real/imaginary parts, homogeneity exponents, factory pairing. NOT decided: asymptotic limits of the parallel-plates model.")
